@@ -282,6 +282,27 @@ theorem C14_terms_key_desc_exact_under_truncation (p : TermsP) (sub : Req) (ho :
   rw [h.1, h.2, finalize_collect_pv]
   exact ⟨rfl, rfl⟩
 
+/-- … for EVERY merge schedule (any order, any grouping — collector fold, distributed merge of
+intermediate results) of the truncated segment fruits, in both key directions -/
+theorem C14_terms_key_order_exact_any_schedule (p : TermsP) (sub : Req)
+    (ho : p.order = .keyAsc ∨ p.order = .keyDesc) (hsz : p.size ≤ p.segSize) (hmdc : p.minDocCount ≤ 1)
+    (hsub : sub.cutFree = true) (parts : List (List Doc)) (t : MTree (TermsI (Inter M sub)))
+    (hleaves : t.leaves.Perm (parts.map (collectSeg (.terms p sub)))) :
+    (finalize (M := M) (.terms p sub) (t.eval (merge (.terms p sub)) (empty (.terms p sub)))).1
+        = (evalAggPV M (.terms p sub) parts.flatten).1
+      ∧ (finalize (M := M) (.terms p sub) (t.eval (merge (.terms p sub)) (empty (.terms p sub)))).2.1
+        = (evalAggPV M (.terms p sub) parts.flatten).2.1 := by
+  have e : t.eval (merge (.terms p sub)) (empty (.terms p sub))
+      = mergeFruits (.terms p sub) (parts.map (collectSeg (.terms p sub))) := by
+    rw [MTree.eval_eq_fold (merge (.terms p sub)) (empty (.terms p sub)) (merge_assoc _) (merge_comm _) (empty_merge _),
+      foldl_op_perm (merge (.terms p sub)) (empty (.terms p sub)) (merge_assoc _) (merge_comm _) (empty_merge _) hleaves,
+      C14_mergeFruits_eq_fold]
+  rw [e]
+  rcases ho with ho | ho
+  · exact ⟨C14_terms_key_asc_exact_under_truncation p sub ho hsz hmdc hsub parts,
+      C14_terms_key_asc_other_exact_under_truncation p sub ho hsz hmdc hsub parts⟩
+  · exact C14_terms_key_desc_exact_under_truncation p sub ho hsz hmdc hsub parts
+
 /-- the hypothesis `min_doc_count ≤ 1` of the two theorems above is needed: the cut happens before the
 `min_doc_count` filter.  Segment 1 holds keys 1 (one document) and 2 (two documents) and keeps key 1
 only; segment 2 holds key 2 once.  With `min_doc_count = 2` the direct computation shows key 2 with
@@ -666,6 +687,11 @@ example : finalize (M := Int) (.terms ⟨0, Option.none, 1, 1, 1, .keyDesc⟩ .n
     (mergeFruits (.terms ⟨0, Option.none, 1, 1, 1, .keyDesc⟩ .none)
       ([[[(0, [3])], [(0, [1])]], [[(0, [2])], [(0, [1])]]].map
         (collectSeg (M := Int) (.terms ⟨0, Option.none, 1, 1, 1, .keyDesc⟩ .none)))) = ([(3, 1, ())], 3, 2) := by decide +kernel
+/-- a schedule that merges the second cut segment into the first: same exact result -/
+example : finalize (M := Int) (.terms ⟨0, Option.none, 1, 1, 1, .keyDesc⟩ .none)
+    ((MTree.node (.leaf (collectSeg (M := Int) (.terms ⟨0, Option.none, 1, 1, 1, .keyDesc⟩ .none) [[(0, [2])], [(0, [1])]]))
+        (.leaf (collectSeg (M := Int) (.terms ⟨0, Option.none, 1, 1, 1, .keyDesc⟩ .none) [[(0, [3])], [(0, [1])]]))).eval
+      (merge (.terms ⟨0, Option.none, 1, 1, 1, .keyDesc⟩ .none)) (empty _)) = ([(3, 1, ())], 3, 2) := by decide +kernel
 example : (compTrim 1 Option.none (compTrim 2 Option.none (KMap.merge (fun a _ => a) (KMap.single 3 (1, ()))
     (KMap.merge (fun a _ => a) (KMap.single 1 (1, ())) (KMap.single 2 (1, ())))))).entries = [(1, 1, ())] := by decide +kernel
 example : [0, 10, 20].Pairwise (fun a b : Int => a < b) := by decide
